@@ -8,7 +8,7 @@ address hashes, as explicit hypotheses (`SigBinds`, `SigUnique`, `MsigAddrInj`, 
 
   decision logic (full):   msig_iff, pq_iff, lsig_iff, stateless_iff, authz_iff, group_ok_iff, two_kinds_rejected,
                            no_kind_rejected, msig_duplicate_entries_count
-  tampering (ideal crypto): sig_binds, msig_binds, tamper_rejected, tamper_sig_rejected, tamper_subsig_rejected,
+  tampering (ideal crypto): sig_binds, msig_binds, pq_binds, tamper_rejected, tamper_rejected_pq, tamper_sig_rejected, tamper_subsig_rejected,
                            msig_params_bound, lsig_contract_program_bound, lsig_delegated_program_bound
   what is NOT guaranteed (as coded): msig_surplus_signature_removable, lsig_does_not_sign_txn
   rekeying:                rekey_changes_authorizer, rekey_to_self_clears, rekey_absent_keeps, after_rekey_only_new_key
@@ -182,6 +182,26 @@ theorem tamper_rejected (E : Env T) (P : Params) (hB : SigBinds E) (gi gi' : Nat
   · rcases hk with hk | hk
     · exact absurd (sig_binds E P hB gi gi' grp grp' s s' hk hacc hsig h).1 htx
     · exact absurd (msig_binds E P hB gi gi' grp grp' s s' hk hacc hmsig h).1 htx
+
+/-- a post-quantum proof binds the transaction bytes and the address derived from (scheme, salt, public key) -/
+theorem pq_binds (E : Env T) (P : Params) (hB : PqBinds E) (gi gi' : Nat) (grp grp' : List (STxn T)) (s s' : STxn T)
+    (hk : Present E s .pq) (hacc : txnOk E P gi grp s = true)
+    (hsame : s'.pqsig = s.pqsig) (hacc' : txnOk E P gi' grp' s' = true) :
+    s'.txn = s.txn ∧ authorizer E s' = authorizer E s := by
+  have hk' : Present E s' .pq := by show s'.pqsig.blank E = false; rw [hsame]; exact hk
+  have h1 : PqValid _ _ _ _ _ := validFor_of_ok E P gi grp s .pq hk hacc
+  have h2 : PqValid _ _ _ _ _ := validFor_of_ok E P gi' grp' s' .pq hk' hacc'
+  rw [hsame] at h2
+  obtain ⟨_, hm⟩ := hB _ _ _ _ _ h2.2.2.2.2.2 h1.2.2.2.2.2
+  exact ⟨by injection hm, by rw [← h1.2.2.2.1, ← h2.2.2.2.1]⟩
+
+/-- the post-quantum case of `tamper_rejected` -/
+theorem tamper_rejected_pq (E : Env T) (P : Params) (hB : PqBinds E) (gi gi' : Nat) (grp grp' : List (STxn T)) (s s' : STxn T)
+    (hk : Present E s .pq) (hacc : txnOk E P gi grp s = true) (hsame : s'.pqsig = s.pqsig) (htx : s'.txn ≠ s.txn) :
+    txnOk E P gi' grp' s' = false := by
+  cases h : txnOk E P gi' grp' s'
+  · rfl
+  · exact absurd (pq_binds E P hB gi gi' grp grp' s s' hk hacc hsame h).1 htx
 
 /-- ANY CHANGE TO THE SIGNATURE IS REJECTED (plain signature): another non-blank signature value on the same
     transaction for the same authorizer is not accepted.  (Blanking it leaves no authorization: `no_kind_rejected`.) -/
@@ -413,6 +433,14 @@ theorem exSigUnique : SigUnique exEnv := by
   simp only [exEnv, Bool.and_eq_true, decide_eq_true_eq] at h h'
   rw [h.2, h'.2]
 
+theorem exPqBinds : PqBinds exEnv := by
+  intro pk m pk' m' s h h'
+  simp only [exEnv, Bool.and_eq_true, decide_eq_true_eq] at h h'
+  rw [h.2] at h'
+  have := h'.2
+  simp only [Option.some.injEq, Prod.mk.injEq] at this
+  exact ⟨this.1, code_inj _ _ this.2⟩
+
 theorem exMsigAddrInj : MsigAddrInj exEnv := by
   intro v t k v' t' k' h
   simp only [exEnv] at h
@@ -439,6 +467,9 @@ def sMsig : STxn exT := ⟨none, m23 (some (1, .txn 40)) none (some (3, .txn 40)
 def sMsigShort : STxn exT := { sMsig with msig := m23 (some (1, .txn 40)) none none }
 /-- contract account: sender 7's AuthAddr is the hash of program 5 -/
 def sLsig : STxn exT := ⟨none, noMsig, { noLsig with logic := 5 }, noPQ, 70, .prog 5⟩
+/-- Falcon account: key 6, salt 2 -/
+def sPQ : STxn exT := ⟨none, noMsig, noLsig, ⟨schemeFalcon1024, 2, 6, some (6, .txn 80)⟩, 80, .pq schemeFalcon1024 2 6⟩
+def sPQTampered : STxn exT := { sPQ with txn := 81 }
 /-- two kinds at once -/
 def sBoth : STxn exT := { sSig with msig := sMsig.msig }
 
@@ -446,6 +477,10 @@ example : acceptTxn exEnv exP 0 [sSig] (.raw 0) sSig = true := by decide
 example : acceptTxn exEnv exP 0 [sMsig] (.msig 1 2 [1, 2, 3]) sMsig = true := by decide
 example : acceptTxn exEnv exP 0 [sMsigShort] (.msig 1 2 [1, 2, 3]) sMsigShort = false := by decide
 example : acceptTxn exEnv exP 0 [sLsig] (.prog 5) sLsig = true := by decide
+example : acceptTxn exEnv exP 0 [sPQ] (.pq schemeFalcon1024 2 6) sPQ = true := by decide
+example : txnOk exEnv exP 0 [sPQTampered] sPQTampered = false :=
+  tamper_rejected_pq exEnv exP exPqBinds 0 0 [sPQ] [sPQTampered] sPQ sPQTampered
+    (show sPQ.pqsig.blank exEnv = false by decide) (by decide) rfl (by decide)
 example : txnOk exEnv exP 0 [sBoth] sBoth = false :=
   two_kinds_rejected exEnv exP 0 [sBoth] sBoth .sig .msig (show exEnv.sigBlank sBoth.sig = false by decide)
     (show sBoth.msig.blank = false by decide) (by decide)
